@@ -26,7 +26,7 @@ RUN_MODULE = "Run.EngineRun"
 VERDICT_FN = "verdict_C16_any"
 CHUNK = 100
 DRIVER_ERR = {"obs": eng.DRIVER_ERR, "same": False}
-K = dict(cbs=0.5, conv=0.3, guards=0.4, validators=0.2, sends=0.1, raises=0.03, multi_event=0.3, listeners=(0, 2),
+K = dict(inst_hooks=0.2, cbs=0.5, conv=0.3, guards=0.4, validators=0.2, sends=0.1, raises=0.03, multi_event=0.3, listeners=(0, 2),
          multi_prov=0.25, p_async=0.0, rtc_false=0.15, ops=(2, 8), falsy_machine=0.0)
 KINDS = ["instance", "sameclass", "subclass", "other", "nested", "stateids"]
 
@@ -128,6 +128,8 @@ def run_impl(sc):
         return c12.copy_attach_probe(sc)
     if sc.get("probe") == "mixin_parent":
         return mixin_parent_probe()
+    if sc.get("probe") == "threads_overlap":
+        return engfam.probe_threads_overlap(sc)
     alone = eng.run_impl(sc)
     try:
         eng.BETWEEN = make_between(sc, sc["kind"], sc["seed"])
@@ -261,6 +263,8 @@ def coq_case(sc, obs):
 def render_source(sc):
     if sc.get("probe") == "copy_attach":
         return "# probe: a listener attached to only one of a machine and its shallow / deep copy (see harness/c12.py)\n"
+    if sc.get("probe") == "threads_overlap":
+        return "# probe: " + " ".join(engfam.probe_threads_overlap.__doc__.split()) + "\n"
     if sc.get("probe") == "mixin_parent":
         return "# probe: MachineMixin model classes DraftModel (DraftFlow) and ReviewModel(DraftModel) (ReviewFlow)\n"
     if sc.get("probe") == "d21":
@@ -294,6 +298,7 @@ def generate(rng, tier):
     scs.append({"probe": "d13"})
     scs.append({"probe": "d21"})
     scs.append({"probe": "mixin_parent"})
+    scs.append({"probe": "threads_overlap"})
     for k in range(12):
         scs.append({"probe": "copy_attach", "seed": rng.randrange(10 ** 6), "first": ["copy", "deepcopy"][k % 2],
                     "side": ["copy", "original"][(k // 2) % 2]})
